@@ -37,7 +37,10 @@ Inductive rx : Type :=
 | XAlt (a b : rx)             (* (?:a|b) *)
 | XNLook (r : rx)             (* (?!r)  *)
 | XPLook (r : rx)             (* (?=r)  *)
-| XEol.                       (* $      *)
+| XEol                        (* $      *)
+| XBol                        (* ^      *)
+| XAlt3 (a b c : rx)          (* (?:a|b|c) *)
+| XAltC (a b : rx).           (* (a|b), capturing *)
 
 Fixpoint xprint (r : rx) : str :=
   match r with
@@ -56,6 +59,9 @@ Fixpoint xprint (r : rx) : str :=
   | XNLook r => S_ "(?!" ++ xprint r ++ S_ ")"
   | XPLook r => S_ "(?=" ++ xprint r ++ S_ ")"
   | XEol => S_ "$"
+  | XBol => S_ "^"
+  | XAlt3 a b c => S_ "(?:" ++ xprint a ++ S_ "|" ++ xprint b ++ S_ "|" ++ xprint c ++ S_ ")"
+  | XAltC a b => S_ "(" ++ xprint a ++ S_ "|" ++ xprint b ++ S_ ")"
   end.
 
 Fixpoint X (r : rx) (s rest : str) : Prop :=
@@ -75,6 +81,9 @@ Fixpoint X (r : rx) (s rest : str) : Prop :=
   | XNLook a => s = [] /\ ~ (exists s' t, rest = s' ++ t /\ X a s' t)
   | XPLook a => s = [] /\ (exists s' t, rest = s' ++ t /\ X a s' t)
   | XEol => s = [] /\ (rest = [] \/ rest = [10])
+  | XBol => False            (* position-unaware semantics: only for regexes without `^` (see Xb below) *)
+  | XAlt3 a b c => X a s rest \/ X b s rest \/ X c s rest
+  | XAltC a b => X a s rest \/ X b s rest
   end.
 
 (* ---- the fragments the parser uses in path mode ---- *)
@@ -521,6 +530,15 @@ Qed.
 Lemma inv3_update_reset first st : inv3 first st -> inv3 false (update_dir_state (reset_dir_track st)).
 Proof. intros [A [B D]]. unfold update_dir_state, reset_dir_track. cbn. repeat split; cbn; auto. Qed.
 
+Definition same_mode (st' st : pst) : Prop := globstar st' = globstar st /\ in_list st' = in_list st.
+Lemma same_mode_refl st : same_mode st st. Proof. split; reflexivity. Qed.
+Lemma same_mode_upd st : same_mode (update_dir_state st) st.
+Proof. unfold same_mode, update_dir_state. destruct (dir_start st && negb (after_start st)); [split; reflexivity|]. destruct (negb (dir_start st) && after_start st); split; reflexivity. Qed.
+Lemma same_mode_upd_reset st : same_mode (update_dir_state (reset_dir_track st)) st.
+Proof. split; reflexivity. Qed.
+Lemma same_mode_trans a b c : same_mode a b -> same_mode b c -> same_mode a c.
+Proof. intros [A1 A2] [B1 B2]. split; congruence. Qed.
+
 Section PathText.
   Variable cf : cfg.
   Hypothesis Hpath : c_pathname cf = true.
@@ -701,10 +719,10 @@ Section PathText.
       (fuel - length (unparse ts) <= f')%nat /\
       root_loop fuel cf st {| idx := i; rest := unparse ts ++ tail |} cur = root_loop f' cf st' {| idx := i'; rest := tail |} cur' /\
       jrev cur' = jrev cur ++ xprint (emit_seg (c_dot cf) first ts) /\
-      inv3 (match ts with [] => first | _ => false end) st'.
+      inv3 (match ts with [] => first | _ => false end) st' /\ same_mode st' st.
   Proof.
     induction ts as [|t ts IH]; intros fuel st i cur first tail W Ht Hf I2.
-    - exists fuel, st, i, cur. split; [cbn; lia|]. split; [reflexivity|]. split; [cbn; rewrite app_nil_r; reflexivity|exact I2].
+    - exists fuel, st, i, cur. split; [cbn; lia|]. split; [reflexivity|]. split; [cbn; rewrite app_nil_r; reflexivity|]. split; [exact I2|apply same_mode_refl].
     - pose proof (pwf_tail _ _ W) as W'.
       change (unparse (t :: ts)) with (unparse1 t ++ unparse ts) in *. rewrite app_length in Hf. rewrite <- app_assoc.
       destruct t as [c|c| | |neg l].
@@ -713,10 +731,10 @@ Section PathText.
         apply negb_true_iff in Wc. apply N.eqb_neq in Wc.
         rewrite pstep_lit by assumption.
         destruct (IH f (update_dir_state st) (i + 1) (T (re_escape_ch c) :: cur) false tail W' Ht ltac:(lia) (inv3_update _ _ I2))
-          as [f' [st' [i' [cur' [Hf' [E [J K]]]]]]].
+          as [f' [st' [i' [cur' [Hf' [E [J [K SM]]]]]]]].
         exists f', st', i', cur'. split; [lia|]. split; [exact E|]. split.
         * rewrite J, jrev_cons. cbn [emit_seg xprint]. rewrite <- app_assoc. reflexivity.
-        * destruct ts; exact K.
+        * split; [destruct ts; exact K|]. eapply same_mode_trans; [exact SM|first [apply same_mode_upd|apply same_mode_upd_reset]].
       + cbn [unparse1 app length] in *. destruct fuel as [|f]; [lia|].
         cbn [pwf] in W. apply andb_true_iff in W. destruct W as [Wc _].
         unfold escapable, ch_in in Wc. cbn [existsb] in Wc. apply negb_true_iff in Wc. apply orb_false_iff in Wc.
@@ -724,28 +742,28 @@ Section PathText.
         rewrite (step_escaped cf Habort Hunix f st i c (unparse ts ++ tail) cur (inv3_inv _ _ I2))
           by (intros ->; discriminate).
         destruct (IH f (update_dir_state st) (i + 1 + 1) (T (re_escape_ch c) :: cur) false tail W' Ht ltac:(lia) (inv3_update _ _ I2))
-          as [f' [st' [i' [cur' [Hf' [E [J K]]]]]]].
+          as [f' [st' [i' [cur' [Hf' [E [J [K SM]]]]]]]].
         exists f', st', i', cur'. split; [lia|]. split; [exact E|]. split.
         * rewrite J, jrev_cons. cbn [emit_seg xprint]. rewrite <- app_assoc. reflexivity.
-        * destruct ts; exact K.
+        * split; [destruct ts; exact K|]. eapply same_mode_trans; [exact SM|first [apply same_mode_upd|apply same_mode_upd_reset]].
       + cbn [unparse1 app length] in *. destruct fuel as [|f]; [lia|].
         rewrite pstep_q.
         destruct (IH f (update_dir_state (reset_dir_track st)) (i + 1) (T (pq_text st) :: cur) false tail W' Ht ltac:(lia) (inv3_update_reset _ _ I2))
-          as [f' [st' [i' [cur' [Hf' [E [J K]]]]]]].
+          as [f' [st' [i' [cur' [Hf' [E [J [K SM]]]]]]]].
         exists f', st', i', cur'. split; [lia|]. split; [exact E|]. split.
         * rewrite J, jrev_cons. destruct I2 as [_ [_ Ha]]. unfold pq_text. rewrite Ha. cbn [emit_seg xprint].
           destruct first; destruct (c_dot cf); cbn [xprint]; rewrite <- ?app_assoc; reflexivity.
-        * destruct ts; exact K.
+        * split; [destruct ts; exact K|]. eapply same_mode_trans; [exact SM|first [apply same_mode_upd|apply same_mode_upd_reset]].
       + cbn [unparse1 app length] in *. destruct fuel as [|f]; [lia|].
         assert (Hh : (match unparse ts ++ tail with c :: _ => negb (N.eqb c 42) | [] => true end) = true).
         { apply head_not_star_tail; [exact W'|exact Ht|]. cbn [pwf] in W. destruct ts as [|[c2|c2| | |neg2 l2] ts']; try reflexivity. discriminate. }
         rewrite pstep_star; [|exact Hh].
         destruct (IH f (update_dir_state (reset_dir_track st)) (i + 1) (T (pstar_text st) :: cur) false tail W' Ht ltac:(lia) (inv3_update_reset _ _ I2))
-          as [f' [st' [i' [cur' [Hf' [E [J K]]]]]]].
+          as [f' [st' [i' [cur' [Hf' [E [J [K SM]]]]]]]].
         exists f', st', i', cur'. split; [lia|]. split; [exact E|]. split.
         * rewrite J, jrev_cons. destruct I2 as [_ [_ Ha]]. unfold pstar_text. rewrite Ha. cbn [emit_seg xprint].
           destruct first; destruct (c_dot cf); cbn [xprint]; rewrite <- ?app_assoc; reflexivity.
-        * destruct ts; exact K.
+        * split; [destruct ts; exact K|]. eapply same_mode_trans; [exact SM|first [apply same_mode_upd|apply same_mode_upd_reset]].
       + cbn [pwf] in W. apply andb_true_iff in W. destruct W as [W _]. apply andb_true_iff in W. destruct W as [Wl Wn].
         assert (Hne : l <> []) by (destruct l; [discriminate|discriminate]).
         assert (HL : (length l + 2 <= length (unparse1 (TBr neg l)))%nat).
@@ -755,14 +773,14 @@ Section PathText.
         pose proof (pstep_br f st i neg l (unparse ts ++ tail) cur Wl Hne) as Q.
         destruct (IH f (update_dir_state (reset_dir_track st)) (i + 1 + (if neg then 1 else 0) + Z.of_nat (length l) + 1)
                      (T (pbr_guard st ++ br_text neg l) :: cur) false tail W' Ht ltac:(lia) (inv3_update_reset _ _ I2))
-          as [f' [st' [i' [cur' [Hf' [E [J K]]]]]]].
+          as [f' [st' [i' [cur' [Hf' [E [J [K SM]]]]]]]].
         assert (HG : forall Y : str, length (91%N :: (if neg then [33%N] else []) ++ l ++ 93%N :: Y) =
                                      (length (unparse1 (TBr neg l)) + length Y)%nat).
         { intros Y. cbn [unparse1 length]. rewrite ?app_length. cbn [length]. rewrite ?app_length. cbn [length]. cbv delta [ch str] in *. destruct neg; cbn [length]; lia. }
         exists f', st', i', cur'. split; [rewrite HG; lia|]. split; [eapply eq_trans; [exact Q|exact E]|]. split.
         * rewrite J, jrev_cons. destruct I2 as [_ [_ Ha]]. unfold pbr_guard. rewrite Ha. cbn [emit_seg xprint].
           destruct first; destruct (c_dot cf); destruct neg; unfold br_text; cbn [xprint]; rewrite <- ?app_assoc; reflexivity.
-        * destruct ts; exact K.
+        * split; [destruct ts; exact K|]. eapply same_mode_trans; [exact SM|first [apply same_mode_upd|apply same_mode_upd_reset]].
   Qed.
 
   Fixpoint punparse (segs : list (list tok)) : str :=
@@ -793,14 +811,14 @@ Section PathText.
     pose proof Wsg as Wsg'. apply andb_true_iff in Wsg'. destruct Wsg' as [Wp Wn].
     destruct segs as [|sg2 segs'].
     - cbn [punparse] in *. rewrite <- (app_nil_r (unparse sg)).
-      destruct (seg_advance sg fuel st i cur true [] Wp eq_refl ltac:(lia) I2) as [f' [st' [i' [cur' [Hf' [E [J K]]]]]]].
+      destruct (seg_advance sg fuel st i cur true [] Wp eq_refl ltac:(lia) I2) as [f' [st' [i' [cur' [Hf' [E [J [K SM]]]]]]]].
       rewrite E. destruct f' as [|f'']; [lia|]. exists st', cur'. split; [reflexivity|]. split.
       + rewrite J. cbn [emit_path xprint]. rewrite <- app_assoc. reflexivity.
       + eapply inv3_inv. exact K.
     - change (punparse (sg :: sg2 :: segs')) with (unparse sg ++ [47%N] ++ punparse (sg2 :: segs')) in *.
       rewrite !app_length in Hf. cbn [length] in Hf.
       destruct (seg_advance sg fuel st i cur true ([47%N] ++ punparse (sg2 :: segs')) Wp eq_refl ltac:(lia) I2)
-        as [f' [st' [i' [cur' [Hf' [E [J K]]]]]]].
+        as [f' [st' [i' [cur' [Hf' [E [J [K SM]]]]]]]].
       rewrite E. destruct f' as [|f'']; [lia|].
       inversion Wrest as [|? ? Wsg2 _]; subst.
       cbn [app]. rewrite pstep_sep; [|apply K|apply punparse_head_noslash; exact Wsg2].
